@@ -114,6 +114,14 @@ fn demo(which: &str) -> i32 {
                 Err(e) => { println!("D14 ok (rejected: {e})"); 0 }
             }
         }
+        // D15 (C02): the n-ary sum of linear functions is the polynomial sum of the items (it started from the variable x0)
+        "D15" => {
+            let items = vec![ommx::v1::Linear::single_term(1, 2.0), ommx::v1::Linear::single_term(2, 1.0) + 3.0];
+            let s: ommx::v1::Linear = items.into_iter().sum();
+            let x0 = s.terms.iter().find(|t| t.id == 0).map(|t| t.coefficient);
+            let empty: ommx::v1::Linear = Vec::<ommx::v1::Linear>::new().into_iter().sum();
+            if x0.is_some() || !empty.terms.is_empty() { println!("D15 MANIFESTS: [2*x1, x2 + 3].into_iter().sum::<Linear>() = {s:?} (an extra term in x0); the empty sum is {empty:?}"); 1 } else { println!("D15 ok ({s:?})"); 0 }
+        }
         // D6 (C19): diagonal entries of the lower triangle of Q0 enter 1/2 x'Qx with factor 1/2
         "D6" => {
             let q = "t\nQCN\nminimize\n2\n2\n1 1 4.0\n2 1 3.0\n0.0\n0\n0.0\n1e30\n-10.0\n0\n10.0\n0\n0.0\n0\n0.0\n0\n0\n0\n";
@@ -211,6 +219,6 @@ fn main() {
             }
         }
     }
-    println!("usage: rx bounded <Cxx> | rx demo <D1|D2|D3|D7|D13|D13u|D5a|D5b|D5c|D5d|D6|D14|O1|O2>");
+    println!("usage: rx bounded <Cxx> | rx demo <D1|D2|D3|D7|D13|D13u|D5a|D5b|D5c|D5d|D6|D14|D15|O1|O2>");
     std::process::exit(2);
 }
